@@ -536,6 +536,8 @@ class Model:
 
     def config_name(self, cid):
         c = self.d['configs'][cid]
+        if cid == self.root and self.d.get('_top_name'):
+            return self.d['_top_name']   # the root Config is given an explicit name=
         if c['medium'] == 'part':
             return f"{(c.get('file') or cid).rsplit('.', 1)[0]}#{c['part']}"
         if c['medium'] == 'inline':
